@@ -188,6 +188,38 @@ fn c02_find_close_in_word() {
     kani::cover!(p == 63);
 }
 
+// ---- the loop-free contract other properties substitute for select_in_word --------
+
+/// Soundness: whatever the contract returns is the specified position.
+#[kani::proof]
+#[kani::unwind(66)]
+fn c02_contract_sound() {
+    let x: u64 = kani::any();
+    let k: u32 = kani::any();
+    let r = crate::stubs::select_in_word_contract(x, k);
+    assert!(r == spec::select_in_word(x, k));
+    kani::cover!(r == 63);
+    kani::cover!(r == 64 && x != 0);
+}
+
+/// Totality: the specified position always satisfies the contract's
+/// assumptions, so substituting the contract never silently prunes an input.
+#[kani::proof]
+#[kani::unwind(66)]
+fn c02_contract_total() {
+    let x: u64 = kani::any();
+    let k: u32 = kani::any();
+    let s = spec::select_in_word(x, k);
+    if k < x.count_ones() {
+        assert!(s < 64);
+        assert!((x >> s) & 1 == 1);
+        assert!((x & ((1u64 << s) - 1)).count_ones() == k);
+    } else {
+        assert!(s == 64);
+    }
+    kani::cover!(s == 40);
+}
+
 // ---- witness: a deliberately wrong claim must be refuted ---------------------
 
 #[kani::proof]
